@@ -147,6 +147,9 @@ Section Sim.
     - (* Sync *) now apply gsync_sim.
     - (* Reopen *)
       apply (gsync_sim set B s1 s2 q (fresh (if set then oset_update pyeq [] pre else pre)) false); auto.
+    - (* Enter *)
+      destruct e as [| | |[|]| | |[|]|]; cbn [hold_enter walk it_src it_used it_items];
+        apply (gsync_sim set B s1 s2 q (fresh (if set then oset_update pyeq [] pre else pre)) false); auto.
     - repeat split; auto.
     - repeat split; auto.
     - destruct set; repeat split; auto.
